@@ -501,6 +501,30 @@ class ConstantScoreWrapperMatcher(WrappingMatcher):
     def _replacement(self, newchild):
         return self.__class__(newchild, score=self._score)
 
+    def replace(self, minquality=0):
+        # The child's own qualities say nothing about this matcher's score
+        if not self.child.is_active():
+            return mcore.NullMatcher()
+        elif minquality and self._score < minquality:
+            return mcore.NullMatcher()
+        r = self.child.replace()
+        if r is not self.child:
+            return self._replacement(r)
+        else:
+            return self
+
+    def supports_block_quality(self):
+        return True
+
+    def skip_to_quality(self, minquality):
+        skipped = 0
+        if self._score <= minquality:
+            # Every remaining posting has the same, too low, score
+            while self.child.is_active():
+                self.child.next()
+                skipped += 1
+        return skipped
+
     def max_quality(self):
         return self._score
 
